@@ -275,9 +275,16 @@ Loop:
 			if depth == 0 {
 				break Loop
 			}
-		case '(', '[', '{':
+		case '[':
+			// Inside a character class brackets and braces
+			// are ordinary characters: /[(]/ and /[{]+/ are
+			// complete patterns.
+			if !l.skipRegexClass() {
+				return l.error(ErrUnterminatedRegex, string(delim))
+			}
+		case '(', '{':
 			depth++
-		case ')', ']', '}':
+		case ')', '}':
 			depth--
 		case '\\':
 			if r := l.nextRune(); r != eof && r != '\n' {
@@ -306,6 +313,46 @@ Loop:
 	}
 
 	return t
+}
+
+// skipRegexClass reads the rest of a character class. The
+// opening bracket has already been consumed. It returns false
+// if the input or the line ends before the class does.
+func (l *lexer) skipRegexClass() bool {
+
+	// A closing bracket that comes first (also after the
+	// negation sign) is a member of the class.
+	l.acceptRune('^')
+	l.acceptRune(']')
+
+	for {
+		switch l.nextRune() {
+		case ']':
+			return true
+		case '[':
+			// A named class such as [:alpha:] ends at ":]".
+			if !l.acceptRune(':') {
+				break
+			}
+		Named:
+			for {
+				switch l.nextRune() {
+				case ':':
+					if l.acceptRune(']') {
+						break Named
+					}
+				case eof, '\n':
+					return false
+				}
+			}
+		case '\\':
+			if r := l.nextRune(); r == eof || r == '\n' {
+				return false
+			}
+		case eof, '\n':
+			return false
+		}
+	}
 }
 
 // scanString reads a string literal from the current position
